@@ -9,7 +9,7 @@
 From Coq Require Import Bool NArith List Lia Arith Eqdep_dec.
 Import ListNotations.
 From RsddV Require Import Base.Bdd Model.Wmc Proofs.Wmc Model.Semirings Proofs.Semirings Model.SemHash
-  Generated.Constants.
+  Proofs.SemHashSdd Generated.Constants.
 
 Local Open Scope N_scope.
 
@@ -88,33 +88,37 @@ Definition z1 : zp P := zmk 1.
 
 Lemma zmk_val x : proj1_sig (zmk x) = x mod P. Proof. reflexivity. Qed.
 Lemma zmk_small x : x < P -> proj1_sig (zmk x) = x.
-Proof. intros H. simpl. apply N.mod_small. exact H. Qed.
+Proof. intros H. cbn [proj1_sig zadd zmul zmk z0 z1]. apply N.mod_small. exact H. Qed.
 
 Lemma zadd_comm a b : zadd a b = zadd b a.
-Proof. apply zp_eq. simpl. f_equal. lia. Qed.
+Proof. apply zp_eq. cbn [proj1_sig zadd zmul zmk z0 z1]. f_equal. lia. Qed.
 Lemma zadd_assoc a b c : zadd (zadd a b) c = zadd a (zadd b c).
 Proof.
-  apply zp_eq. simpl. rewrite N.add_mod_idemp_l, N.add_mod_idemp_r by lia. f_equal. lia.
+  apply zp_eq. cbn [proj1_sig zadd zmul zmk z0 z1]. rewrite N.add_mod_idemp_l, N.add_mod_idemp_r by lia. f_equal. lia.
 Qed.
 Lemma zmul_comm a b : zmul a b = zmul b a.
-Proof. apply zp_eq. simpl. f_equal. lia. Qed.
+Proof. apply zp_eq. cbn [proj1_sig zadd zmul zmk z0 z1]. f_equal. lia. Qed.
 Lemma zmul_assoc a b c : zmul (zmul a b) c = zmul a (zmul b c).
 Proof.
-  apply zp_eq. simpl. rewrite N.mul_mod_idemp_l, N.mul_mod_idemp_r by lia. f_equal. lia.
+  apply zp_eq. cbn [proj1_sig zadd zmul zmk z0 z1]. rewrite N.mul_mod_idemp_l, N.mul_mod_idemp_r by lia. f_equal. lia.
 Qed.
 Lemma zmul_one_r a : zmul a z1 = a.
 Proof.
-  apply zp_eq. simpl. rewrite (N.mod_small 1) by lia. rewrite N.mul_1_r.
+  apply zp_eq. cbn [proj1_sig zadd zmul zmk z0 z1]. rewrite (N.mod_small 1) by lia. rewrite N.mul_1_r.
   apply N.mod_small. apply zp_lt.
 Qed.
 Lemma zadd_zero_r a : zadd a z0 = a.
 Proof.
-  apply zp_eq. simpl. rewrite (N.mod_small 0) by lia. rewrite N.add_0_r.
+  apply zp_eq. cbn [proj1_sig zadd zmul zmk z0 z1]. rewrite (N.mod_small 0) by lia. rewrite N.add_0_r.
   apply N.mod_small. apply zp_lt.
+Qed.
+Lemma zmul_zero_r a : zmul a z0 = z0.
+Proof.
+  apply zp_eq. cbn [proj1_sig zadd zmul zmk z0 z1]. rewrite (N.mod_small 0) by lia. rewrite N.mul_0_r. reflexivity.
 Qed.
 Lemma zdistr_l a b c : zmul a (zadd b c) = zadd (zmul a b) (zmul a c).
 Proof.
-  apply zp_eq. simpl. rewrite N.mul_mod_idemp_r by lia. rewrite <- N.add_mod by lia. f_equal. lia.
+  apply zp_eq. cbn [proj1_sig zadd zmul zmk z0 z1]. rewrite N.mul_mod_idemp_r by lia. rewrite <- N.add_mod by lia. f_equal. lia.
 Qed.
 End ZP.
 
@@ -151,7 +155,7 @@ Proof.
   intros HP R v. unfold wl, wh.
   destruct (Nat.lt_ge_cases (N.to_nat v) (length w)) as [L|L].
   - apply R. apply nth_In. exact L.
-  - rewrite nth_overflow by exact L. simpl. repeat split; try lia. apply N.mod_small. lia.
+  - rewrite nth_overflow by exact L. cbn [fst snd]. repeat split; try lia. apply N.mod_small. lia.
 Qed.
 
 (* (P - h + 1) + h = 1 in Z/P: what create_semantic_hash_map establishes *)
@@ -215,7 +219,7 @@ Lemma wh_lt v : wh w v < P. Proof. apply (wrange_total P w HP WR v). Qed.
 
 Lemma z_norm v : zadd P HP (zl v) (zh v) = z1 P HP.
 Proof.
-  apply zp_eq. simpl. rewrite <- N.add_mod by lia.
+  apply zp_eq. cbn [proj1_sig zadd zmul zmk z0 z1]. rewrite <- N.add_mod by lia.
   destruct (wrange_total P w HP WR v) as (_ & _ & E). rewrite E. symmetry. apply N.mod_small. lia.
 Qed.
 
@@ -223,10 +227,10 @@ Qed.
 Lemma swmc_c_proj p : forall c, proj1_sig (swmc_c c p) = zhash_c P w c p.
 Proof.
   induction p as [| |c' v lo IHlo hi IHhi]; intros c.
-  - destruct c; simpl; apply N.mod_small; lia.
-  - destruct c; simpl; apply N.mod_small; lia.
+  - destruct c; unfold zhash_c; cbn [Wmc.wmc_c proj1_sig zadd zmul zmk z0 z1]; apply N.mod_small; lia.
+  - destruct c; unfold zhash_c; cbn [Wmc.wmc_c proj1_sig zadd zmul zmk z0 z1]; apply N.mod_small; lia.
   - unfold zhash_c. cbn [Wmc.wmc_c]. fold (zhash_c P w (xorb c c') lo). fold (zhash_c P w (xorb c c') hi).
-    rewrite <- IHlo, <- IHhi. simpl.
+    rewrite <- IHlo, <- IHhi. cbn [proj1_sig zadd zmul zmk z0 z1].
     rewrite (N.mod_small (wl w v)) by apply wl_lt. rewrite (N.mod_small (wh w v)) by apply wh_lt.
     reflexivity.
 Qed.
@@ -234,9 +238,9 @@ Qed.
 Lemma swmc_spec_proj vars f : forall x, proj1_sig (swmc_spec vars f x) = fhash P w vars f x.
 Proof.
   induction vars as [|v vs IH]; intros x.
-  - simpl. destruct (f x); simpl; apply N.mod_small; lia.
+  - unfold fhash; cbn [Wmc.wmc_spec]. destruct (f x); cbn [proj1_sig zadd zmul zmk z0 z1]; apply N.mod_small; lia.
   - unfold fhash. cbn [Wmc.wmc_spec]. fold (fhash P w vs f (upd x v false)). fold (fhash P w vs f (upd x v true)).
-    rewrite <- !IH. simpl.
+    rewrite <- !IH. cbn [proj1_sig zadd zmul zmk z0 z1].
     rewrite (N.mod_small (wl w v)) by apply wl_lt. rewrite (N.mod_small (wh w v)) by apply wh_lt.
     reflexivity.
 Qed.
@@ -250,8 +254,8 @@ Proof. rewrite <- swmc_spec_proj. apply zp_lt. Qed.
 Lemma hash_c_exact p : vars_in p w -> forall c, hash_c m P w c p = Some (zhash_c P w c p).
 Proof.
   induction p as [| |c' v lo IHlo hi IHhi]; intros V c.
-  - unfold hash_c. simpl. destruct c; [apply ff_zero_ok | apply ff_one_ok]; lia.
-  - unfold hash_c. simpl. destruct c; [apply ff_one_ok | apply ff_zero_ok]; lia.
+  - unfold hash_c, zhash_c. cbn [Wmc.wmc_c]. destruct c; [apply ff_zero_ok | apply ff_one_ok]; lia.
+  - unfold hash_c, zhash_c. cbn [Wmc.wmc_c]. destruct c; [apply ff_one_ok | apply ff_zero_ok]; lia.
   - assert (Vv : (N.to_nat v < length w)%nat) by (apply V; simpl; auto).
     assert (Vlo : vars_in lo w) by (intros u Hu; apply V; simpl; right; apply in_or_app; auto).
     assert (Vhi : vars_in hi w) by (intros u Hu; apply V; simpl; right; apply in_or_app; auto).
@@ -270,7 +274,7 @@ Proof.
   pose proof (wmc_c_compl (zp P) (zadd P HP) (zmul P HP) (z0 P HP) (z1 P HP)
                (zadd_comm P HP) (zadd_assoc P HP) (zmul_one_r P HP) (zadd_zero_r P HP) (zdistr_l P HP)
                zl zh z_norm p c) as E.
-  apply (f_equal (@proj1_sig _ _)) in E. simpl in E. rewrite E. apply N.mod_small. lia.
+  apply (f_equal (@proj1_sig _ _)) in E. cbn [proj1_sig zadd zmul zmk z0 z1] in E. rewrite E. apply N.mod_small. lia.
 Qed.
 
 Lemma one_minus_unique a b : a < P -> b < P -> (a + b) mod P = 1 -> a = zp_sub P 1 b.
@@ -345,13 +349,33 @@ Proof.
   pose proof (wmc_spec_compl (zp P) (zadd P HP) (zmul P HP) (z0 P HP) (z1 P HP)
                (zadd_comm P HP) (zadd_assoc P HP) (zmul_one_r P HP) (zadd_zero_r P HP) (zdistr_l P HP)
                zl zh z_norm vars f x) as E.
-  apply (f_equal (@proj1_sig _ _)) in E. simpl in E. rewrite E. apply N.mod_small. lia.
+  apply (f_equal (@proj1_sig _ _)) in E. cbn [proj1_sig zadd zmul zmk z0 z1] in E. rewrite E. apply N.mod_small. lia.
 Qed.
 
 Lemma fhash_ext vars f g x : (forall a, f a = g a) -> fhash P w vars f x = fhash P w vars g x.
 Proof.
   intros E. rewrite <- !swmc_spec_proj. f_equal.
   apply (wmc_spec_local (zp P) (zadd P HP) (zmul P HP) (z0 P HP) (z1 P HP)). intros a _. apply E.
+Qed.
+
+(* ---- the hash of an SDD decision node, on functions: sum_i H(prime_i) * H(sub_i) ---- *)
+Fixpoint zsum_pairs (vars : list var) (els : list ((asg -> bool) * (asg -> bool))) (x : asg) : N :=
+  match els with
+  | [] => 0
+  | (p, s) :: r => ((fhash P w vars p x * fhash P w vars s x) mod P + zsum_pairs vars r x) mod P
+  end.
+
+Theorem fhash_sdd_node vars els x : NoDup vars -> excl_primes els ->
+  (forall p s, In (p, s) els -> ext_fun p /\ ext_fun s /\ forall v, In v vars -> ignores p v \/ ignores s v) ->
+  fhash P w vars (den_pairs els) x = zsum_pairs vars els x.
+Proof.
+  intros ND EX WF. rewrite <- swmc_spec_proj.
+  rewrite (sdd_node_hash (zp P) (zadd P HP) (zmul P HP) (z0 P HP) (z1 P HP)
+             (zadd_comm P HP) (zadd_assoc P HP) (zmul_assoc P HP) (zmul_comm P HP) (zmul_one_r P HP)
+             (zmul_zero_r P HP) (zadd_zero_r P HP) (zdistr_l P HP) zl zh z_norm vars els ND EX WF x).
+  clear EX WF. induction els as [|[p s] r IH]; cbn [sum_pairs zsum_pairs].
+  - cbn [proj1_sig z0 zmk]. apply N.mod_small. lia.
+  - cbn [proj1_sig zadd zmul zmk]. rewrite IH, !swmc_spec_proj. reflexivity.
 Qed.
 
 (* negate is an involution on residues, and never fixes a value unless 2x = 1 *)
@@ -381,9 +405,9 @@ Theorem cached_hash_eq p : vars_in p w -> forall s, cache_sound s ->
   exists s', cached_hash m P w p s = Some (zhash P w p, s') /\ cache_sound s' /\ cache_le s s'.
 Proof.
   induction p as [| |c v lo IHlo hi IHhi]; intros V s CS.
-  - exists s. simpl. rewrite ff_new_ok by lia. rewrite N.mod_small by lia. simpl.
+  - exists s. cbn [cached_hash]. rewrite ff_new_ok by lia. rewrite N.mod_small by lia. cbn [option_map].
     split; [reflexivity|]. split; [assumption|]. intros k h H; exact H.
-  - exists s. simpl. rewrite ff_new_ok by lia. rewrite N.mod_small by lia. simpl.
+  - exists s. cbn [cached_hash]. rewrite ff_new_ok by lia. rewrite N.mod_small by lia. cbn [option_map].
     split; [reflexivity|]. split; [assumption|]. intros k h H; exact H.
   - assert (Vv : (N.to_nat v < length w)%nat) by (apply V; simpl; auto).
     assert (Vlo : vars_in lo w) by (intros u Hu; apply V; simpl; right; apply in_or_app; auto).
@@ -401,7 +425,7 @@ Proof.
                 end) = Some (zhash P w (BN false v lo hi), s') /\ cache_sound s' /\ cache_le s s').
     { destruct (hc_get (BN false v lo hi) s) as [h|] eqn:G.
       - exists s. rewrite (CS _ _ _ _ G). rewrite ff_new_ok by lia.
-        rewrite N.mod_small by apply zhash_c_lt. simpl.
+        rewrite N.mod_small by apply zhash_c_lt. cbn [option_map].
         split; [reflexivity|]. split; [assumption|]. intros k h' H; exact H.
       - destruct (IHlo Vlo s CS) as (s1 & E1 & CS1 & L1).
         destruct (IHhi Vhi s1 CS1) as (s2 & E2 & CS2 & L2).
@@ -426,7 +450,7 @@ Proof.
     destruct R as (s' & ER & CS' & L'). exists s'.
     cbn [cached_hash]. rewrite ER. destruct c.
     + cbn [bind fst snd]. rewrite ff_negate_exact_gen by (try apply zhash_c_lt; assumption).
-      simpl. split; [|split; assumption]. do 2 f_equal.
+      cbn [option_map]. split; [|split; assumption]. do 2 f_equal.
       (* negate (hash of the regular pointer) = the fold of the complemented pointer *)
       symmetry. change (BN true v lo hi) with (neg (BN false v lo hi)).
       unfold zhash. rewrite zhash_c_neg. apply (zhash_c_negb (BN false v lo hi) false).
